@@ -45,6 +45,20 @@ NOT_A_PAIR = {
 }
 
 
+# getters whose slice has an effect that does not alter what the pipe does
+# next, confirmed by reading: (function holding the store, record, reason)
+GET_EXCEPTIONS = {
+    'upipe_seg_src_control': [('upipe_seg_src_check_src', None,
+                              'upipe_seg_src_check_src() lazily creates the inner source pipe the command is forwarded to, for setters and getters '
+                              'alike; it does nothing once the inner pipe exists (upipe_segment_source.c:258-276)')],
+}
+
+
+def fnmatch(cf, e):
+    """the effect happens inside (a callee of) the excepted function"""
+    return e.fn == cf[0] or any(v.split(':')[0] == cf[0] for v in e.via)
+
+
 def is_getter(name):
     return '_GET_' in name
 
@@ -113,12 +127,13 @@ def run(tier='quick', repo=None):
         'effect summaries): R-get-pure (code reached by getter commands only stores nothing into the pipe or globals), '
         'R-getset-agree (the field a getter copies out is one the paired setter stores), R-set-atomic (no constant error '
         'return of a setter is dominated by a store to the pipe). It does not decide that the data path honours the value.')
-    rep.rule('R-get-pure', 'blocks reachable from a *_GET_* case label and from no non-getter label contain, transitively, no store '
+    rep.rule('R-get-pure', 'blocks reachable from a *_GET_* case label (and the code that runs after a dispatching helper handled the getter) contain, transitively, no store '
              'whose address derives from the pipe parameter or a global (stores through va_arg out-pointers and to locals are allowed)')
     rep.rule('R-getset-agree', 'for each pair K_GET_X / K_SET_X handled by one control root: every private field copied out directly '
              'by the getter is stored somewhere in the setter slice')
     rep.rule('R-set-atomic', 'in a *_SET_* slice whose command has a paired getter, no return of an error constant other than '
-             'UBASE_ERR_ALLOC is dominated (from the case label / callee entry) by a statement that stores into the pipe')
+             'UBASE_ERR_ALLOC is dominated (from the case label / callee entry) by a statement that stores into the pipe; and in a setter made of several steps, '
+             'a field definitely stored before a local call that can fail is stored again before that failure is returned')
     dirs = QUICK_DIRS if tier == 'quick' else THOROUGH_DIRS
     units = list_units(repo, dirs)
     prog = facts.load_program(units, repo=repo, tolerate=True)
@@ -175,9 +190,13 @@ def run(tier='quick', repo=None):
             for k in sorted(sl):
                 if is_getter(k):
                     for s in sl[k]:
-                        own = s.blocks - nonget.get(s.fn.name, set())
+                        own = s.blocks
                         eff, ind, ext, calls = E.block_effects(s.fn.unit, s.fn, own, skip=dispatch_skip(s.fn))
                         bad = [e for e in eff if private_origin(e)]
+                        if bad and all(any(fnmatch(cf, e) for cf in GET_EXCEPTIONS.get(rname, ())) for e in bad):
+                            rep.add('R-get-pure', '%s:%s' % (s.fn.name, k), OOS, s.fn.loc,
+                                    why='listed exception: ' + GET_EXCEPTIONS[rname][0][2], effects=[e.describe() for e in bad][:3])
+                            continue
                         unk = [e for e in eff if e.origin[0] == 'unknown']
                         inst = '%s:%s' % (s.fn.name, k)
                         loc = '%s:%s' % (s.fn.file, s.fn.blocks[s.case_block]['stmts'][0]['l'] if s.fn.blocks[s.case_block].get('stmts') else s.fn.line)
@@ -190,11 +209,11 @@ def run(tier='quick', repo=None):
                                 seen.add(key)
                                 rep.add('R-get-pure', '%s:%s.%s' % (inst, e.rec, e.field), VIOLATED,
                                         '%s:%s' % (e.file, e.line), effect=e.describe(), command=k,
-                                        control=rname, shared_blocks_excluded=len(s.blocks - own))
+                                        control=rname)
                         elif unk:
                             rep.add('R-get-pure', inst, UNDECIDED, loc, why='store through pointer of unknown origin: ' + unk[0].describe())
                         else:
-                            rep.add('R-get-pure', inst, HOLDS, loc, blocks=len(own), shared_blocks_excluded=len(s.blocks - own),
+                            rep.add('R-get-pure', inst, HOLDS, loc, blocks=len(own),
                                     callees=sorted(calls)[:8])
             # pairs
             for k in sorted(sl):
@@ -232,9 +251,19 @@ def run(tier='quick', repo=None):
                 # R-set-atomic on the setter slices
                 for s in sl[ks]:
                     check_set_atomic(rep, E, s, ks, rname)
+                    # composite setters: callees reached from the slice
+                    seen_fns = {s.fn.name}
+                    for b3 in s.blocks:
+                        for st3 in s.fn.stmts(b3):
+                            for x3 in walk(st3):
+                                if x3.get('k') == 'call' and x3.get('fn') and not dispatch_skip(s.fn)(x3):
+                                    g3 = prog.lookup(s.fn.unit, x3['fn'])
+                                    if g3 is not None and g3.blocks and g3.unit is s.fn.unit and g3.inmain:
+                                        check_composite(rep, E, g3, ks, rname, seen_fns)
     rep.tables['pairs'] = ['%s %s/%s' % p for p in pairs_seen][:300]
     rep.tables['n_pairs'] = len(pairs_seen)
     rep.tables['not_a_pair'] = NOT_A_PAIR
+    rep.tables['not_atomic_by_contract'] = NOT_ATOMIC_BY_CONTRACT
     rep.assumptions = [
         'a control function is what is stored in an upipe_mgr.upipe_control slot in the same translation unit',
         'commands are dispatched by switch(command) with enumerator case labels (other forms are reported undecided)',
@@ -285,6 +314,119 @@ def check_set_atomic(rep, E, s, cmd, rname, depth=0, seen=None):
                 rep.add('R-set-atomic', inst + ':L%s' % st.get('l'), HOLDS, '%s:%s' % (fn.file, st.get('l')))
     if nret == 0:
         rep.add('R-set-atomic', '%s:%s:no-constant-error-return' % (fn.name, cmd), HOLDS, fn.loc)
+
+
+_canfail = {}
+
+
+def can_fail(E, fn, depth=0):
+    """may the function return an error constant other than NONE / UNHANDLED / ALLOC?"""
+    key = (fn.unit.name, fn.name)
+    if key in _canfail:
+        return _canfail[key]
+    _canfail[key] = False
+    r = False
+    for bid, st in fn.all_stmts():
+        if st.get('k') == 'return' and isinstance(st.get('e'), dict):
+            en = enum_name(st['e'])
+            if en and en.startswith('UBASE_ERR_') and en not in ERR_OK:
+                r = True
+            else:
+                e = strip_all_casts(fn.resolve(st['e']))
+                if isinstance(e, dict) and e.get('k') == 'call' and e.get('fn') and depth < 4:
+                    g = E.prog.lookup(fn.unit, e['fn'])
+                    if g is not None and g.blocks and g.unit is fn.unit and can_fail(E, g, depth + 1):
+                        r = True
+    _canfail[key] = r
+    return r
+
+
+# setters that by contract release the current resource before acquiring the new one:
+# a failure leaves the pipe without resource, not with the previous one
+NOT_ATOMIC_BY_CONTRACT = {
+    'UPIPE_SET_URI': 'upipe.h: set_uri closes the currently opened resource first (also used with NULL to close); a failed open leaves the pipe closed, '
+                     'which is the documented behaviour of sources and sinks',
+}
+
+
+def check_composite(rep, E, fn, cmd, rname, seen):
+    """a setter made of several fallible steps: if a later step can fail after an
+    earlier one stored, the stored fields must be written again before the error is
+    returned"""
+    if fn.name in seen:
+        return
+    seen.add(fn.name)
+    if cmd in NOT_ATOMIC_BY_CONTRACT:
+        return
+    from upv import pathrules as pr
+    ev = pr.Events(fn)
+    skip = dispatch_skip(fn)
+    ldefs = fn.local_defs()
+    # statements with private store effects, by field
+    stores = {}
+    for bid in fn.blocks:
+        for st in fn.stmts(bid):
+            for e in stmt_effects(E, fn, st, skip):
+                if private_origin(e) and e.kind == 'store' and e.rec and e.rec not in ('urefcount', 'uchain', 'urequest', 'upipe'):
+                    stores.setdefault((e.rec, e.field), []).append(st)
+    if stores:
+        def in_stmt(stl):
+            ids = {id(x) for st in stl for x in walk(st)}
+            return lambda n: id(n) in ids
+        # returns that hand back the code of a fallible local call
+        for bid, st in fn.all_stmts():
+            if st.get('k') != 'return' or not isinstance(st.get('e'), dict):
+                continue
+            e = strip_all_casts(fn.resolve(st['e']))
+            gcall = None
+            if isinstance(e, dict) and e.get('k') == 'call':
+                gcall = e
+            elif isinstance(e, dict) and e.get('k') == 'ref' and e.get('d') == 'local':
+                # the variable last assigned from a call in a dominating position: use its definitions
+                for b2, s2, x in fn.nodes():
+                    if x.get('k') == 'decl':
+                        for v in x['vars']:
+                            if v['n'] == e['n'] and isinstance(v.get('init'), dict):
+                                c = strip_all_casts(v['init'])
+                                if isinstance(c, dict) and c.get('k') == 'call':
+                                    gcall = c if gcall is None or c.get('l', 0) > gcall.get('l', 0) and c.get('l', 0) <= st.get('l', 0) else gcall
+                    elif is_assign(x) and x['op'] == '=':
+                        l = strip(x['lhs'])
+                        c = strip_all_casts(x['rhs'])
+                        if isinstance(l, dict) and l.get('k') == 'ref' and l['n'] == e['n'] and isinstance(c, dict) and c.get('k') == 'call':
+                            if gcall is None or (c.get('l', 0) > gcall.get('l', 0) and c.get('l', 0) <= st.get('l', 0)):
+                                gcall = c
+            if gcall is None or not gcall.get('fn'):
+                continue
+            g = E.prog.lookup(fn.unit, gcall['fn'])
+            if g is None or not g.blocks or g.unit is not fn.unit or not can_fail(E, g):
+                continue
+            isg = (lambda c: (lambda n: n is c))(gcall)
+            isret = (lambda r: (lambda n: n is r))(st)
+            gpos = ev.find(isg)
+            if not gpos:
+                continue
+            for f, stl in sorted(stores.items()):
+                isst = in_stmt([x for x in stl if not any(y is gcall for y in walk(x))])
+                # definitely stored before the fallible call
+                hits, _ = ev.reach(None, isg, isst, from_entry=True)
+                if hits:
+                    continue
+                # written again between the failing call and the return?
+                hits2, _ = ev.reach((gpos[0][0], gpos[0][1]), isret, isst)
+                inst = '%s:%s:%s.%s-then-%s-fails' % (fn.name, cmd, f[0], f[1], gcall['fn'])
+                if hits2:
+                    rep.add('R-set-atomic', inst, VIOLATED, '%s:%s' % (fn.file, st.get('l')), control=rname,
+                            what='%s stores %s.%s, then calls %s() which can fail, and returns that failure (line %s) without writing %s.%s again: a rejected setter leaves the new value in force' % (
+                                fn.name, f[0], f[1], gcall['fn'], st.get('l'), f[0], f[1]))
+                else:
+                    rep.add('R-set-atomic', inst, HOLDS, '%s:%s' % (fn.file, st.get('l')), note='restored before the error is returned')
+    # callees of the setter in the same unit
+    for bid, s_, x in fn.calls():
+        if x.get('fn') and not skip(x):
+            g = E.prog.lookup(fn.unit, x['fn'])
+            if g is not None and g.blocks and g.unit is fn.unit and g.inmain and len(seen) < 12:
+                check_composite(rep, E, g, cmd, rname, seen)
 
 
 def stmt_effects(E, fn, st, skip):
